@@ -350,6 +350,8 @@ class C11(InputProp):
                 with contextlib.suppress(Exception):
                     run["hub"].shutdown()
                 shutil.rmtree(run["dir"], ignore_errors=True)
+                from mc.core.runner import close_leaked_sqlitedicts
+                close_leaked_sqlitedicts()
         return viol, key, run["points"]
 
     def run_case(self, case):
